@@ -207,7 +207,7 @@ def main():
 
     databases = {"id": im.database, "att": wdb}
 
-    def do_item(item):
+    def do_item(item, path=()):
         try:
             for ref in (item.get("after"), item.get("cred")):
                 if ref:
@@ -227,9 +227,10 @@ def main():
                     for d in item["dbs"]:
                         stack.enter_context(databases[d])
                     for j, sub in enumerate(item["items"]):
-                        log({"e": "item", "i": i, "j": j, "n": counter[0]})
-                        point("item:%d.%d" % (i, j))
-                        do_item(sub)
+                        # (blocks nest: a sub-item may be a block again - of the same database as well)
+                        log({"e": "item", "i": i, "p": [*path, j], "n": counter[0]})
+                        point("item:%d.%s" % (i, ".".join(str(x) for x in (*path, j))))
+                        do_item(sub, (*path, j))
                     if item["end"] == "ignore":
                         raise IgnoreCommits
                     if item["end"] == "error":
@@ -242,6 +243,21 @@ def main():
                                                {"name": item["name"]}, after)
             if cred is None:
                 raise RuntimeError("create_credential refused")
+            known[item["name"]] = cred.metadata
+        elif item["op"] == "import":
+            # a whole credential made elsewhere (token, metadata and attestations by several authorities) is handed
+            # to PseudonymManager.add_credential in ONE call: the multi-step write of the library
+            from ipv8.attestation.identity.attestation import Attestation
+            from ipv8.attestation.identity.metadata import Metadata
+            from ipv8.attestation.tokentree.token import Token
+            after = find_metadata(item["after"]) if item.get("after") else None
+            previous = pseudonym.tree.genesis_hash if after is None else after.token_pointer
+            token = Token(previous, content_hash=hashlib.sha3_256(item["name"].encode()).digest(), private_key=owner)
+            md = Metadata(token.get_hash(), json.dumps({"name": item["name"]}).encode(), owner)
+            atts = [(auths[a].pub(), Attestation.create(md, auths[a])) for a in item["auths"]]
+            cred = pseudonym.add_credential(token, md, set(atts))
+            if cred is None or len(cred.attestations) != len(atts):
+                raise RuntimeError("add_credential refused")
             known[item["name"]] = cred.metadata
         elif item["op"] == "attest":
             md = find_metadata(item["cred"])
@@ -387,6 +403,16 @@ def observe(im, wdb, pseudonym, hexs):
                 problems.append("stored attestation blob does not round-trip")
     except Exception as e:  # noqa: BLE001
         problems.append("reload raised %s: %s" % (type(e).__name__, str(e)[:120]))
+    try:
+        # the rebuilt pseudonym can be USED: every rebuilt credential can be disclosed (the library walks from the
+        # credential's token back to the genesis and refuses tokens that do not verify)
+        pick = sorted(pseudonym.credentials, key=lambda c: c.metadata.get_hash())
+        if len(pick) > 30:
+            pick = pick[:6] + pick[-6:]
+        for cred in pick:
+            pseudonym.disclose_credentials([cred], {att.get_hash() for att in cred.attestations})
+    except Exception as e:  # noqa: BLE001
+        problems.append("a rebuilt credential cannot be disclosed: %s: %s" % (type(e).__name__, str(e)[:120]))
     return {"e": "observe", "rows": rows, "verifies": not problems, "problems": problems, "rebuilt": rebuilt}
 
 
